@@ -63,4 +63,59 @@ theorem hvals_xfh (i : In) (k : Bytes) (hne : k ≠ kXFHost) :
   · rfl
   · exact hvals_appendTo_ne _ _ _ _ hne
 
+/-! ## the hop-by-hop removal that follows mod_header keeps the headers BFE set -/
+theorem hvals_filter_ne (h : Hdr) (k k' : Bytes) (hne : k ≠ k') :
+    hvals (h.filter fun kv => kv.1 != k') k = hvals h k := by
+  unfold hvals
+  induction h with
+  | nil => rfl
+  | cons x xs ih =>
+    by_cases hx : x.1 = k'
+    · have h1 : (x.1 != k') = false := by simp [hx]
+      have h2 : (x.1 == k) = false := by
+        simp only [beq_eq_false_iff_ne, ne_eq]; intro e; exact hne (e.symm.trans hx)
+      simp only [List.filter_cons, h1, List.find?_cons, h2]
+      exact ih
+    · have h1 : (x.1 != k') = true := by simp [hx]
+      simp only [List.filter_cons, h1, if_true, List.find?_cons]
+      cases h2 : (x.1 == k) with
+      | true => rfl
+      | false => exact ih
+
+theorem hvals_hopStep_ne (h : Hdr) (k k' : Bytes) (hne : k ≠ k') :
+    hvals (BfeVerif.C26.hopStep h k') k = hvals h k := by
+  unfold BfeVerif.C26.hopStep
+  simp only
+  split
+  · rfl
+  · split
+    · rfl
+    · exact hvals_filter_ne h k k' hne
+
+theorem hvals_foldl_hopStep (l : List Bytes) (h : Hdr) (k : Bytes) (hl : ∀ k' ∈ l, k ≠ k') :
+    hvals (l.foldl BfeVerif.C26.hopStep h) k = hvals h k := by
+  induction l generalizing h with
+  | nil => rfl
+  | cons k' ks ih =>
+    simp only [List.foldl_cons]
+    rw [ih _ (fun x hx => hl x (List.mem_cons_of_mem _ hx)), hvals_hopStep_ne h k k' (hl k' (List.mem_cons_self ..))]
+
+/-- no name BFE protects is a standard hop-by-hop header (both tables regenerated from the source) -/
+theorem protected_not_hop :
+    ∀ k ∈ BfeVerif.Generated.C26.hopProtected, k ∉ BfeVerif.Generated.C26.hopHeaders := by decide
+
+theorem upstream_keeps (i : In) (k : Bytes) (hk : k ∈ BfeVerif.Generated.C26.hopProtected) :
+    hvals (upstream i) k = hvals (resolve i).2 k := by
+  unfold upstream BfeVerif.C26.hopRemove BfeVerif.C26.hopList
+  apply hvals_foldl_hopStep
+  intro k' hk' e
+  subst e
+  rcases List.mem_append.mp hk' with h1 | h1
+  · exact protected_not_hop k hk h1
+  · unfold BfeVerif.C26.connNames at h1
+    have := (List.mem_filter.mp h1).2
+    simp only [Bool.and_eq_true, Bool.not_eq_true'] at this
+    rw [List.contains_iff_mem.mpr hk] at this
+    exact absurd this.2 (by simp)
+
 end BfeVerif.C29
